@@ -57,10 +57,6 @@ def toR : Selection → RField
   | .field alias name dirs sid sub => ⟨alias, name, dirs, sid, sub⟩
   | _ => ⟨none, "", [], 0, []⟩
 
-def isField : Selection → Bool
-  | .field .. => true
-  | _ => false
-
 theorem plainLocal1_isField {env : Env} {marks : List Nat} {cn tn : String} {s : Selection}
     (h : plainLocal1 env marks cn tn s = true) : isField s = true := by
   cases s <;> simp [plainLocal1, isField] at h ⊢
